@@ -468,6 +468,56 @@ def validate (b : Bin) (expectVersion : Nat) : List String := Id.run do
   let eps := b.insts.filter (·.op == 15)
   for e in eps do
     if !fnIds.contains (e.ws.getD 1 0) then errs := "OpEntryPoint: function id is not a function" :: errs
+  -- entry-point interfaces (SPIR-V 2.16.1 / OpEntryPoint): every global variable statically referenced from
+  -- the entry point's call tree is listed (all storage classes from 1.4 on, Input/Output before), once,
+  -- and every listed id is a module-scope OpVariable
+  let gvars : List (Nat × Nat) := (b.insts.takeWhile (fun i => i.op != 54)).filterMap (fun i =>
+    if i.op == 59 then some (i.ws.getD 1 0, i.ws.getD 2 0) else none)
+  -- per function: referenced globals and callees
+  let mut fnUses : List (Nat × List Nat × List Nat) := []
+  let mut curFn : Option (Nat × List Nat × List Nat) := none
+  for i in b.insts do
+    if i.op == 54 then curFn := some (i.ws.getD 1 0, [], [])
+    else if i.op == 56 then
+      match curFn with
+      | some f => fnUses := f :: fnUses; curFn := none
+      | none => pure ()
+    else
+      match curFn with
+      | some (fid, gs, cs) =>
+        let used := (idOperands i).filter (fun o => gvars.any (·.1 == o))
+        let cs := if i.op == 57 then i.ws.getD 2 0 :: cs else cs
+        curFn := some (fid, used ++ gs, cs)
+      | none => pure ()
+  for e in eps do
+    -- skip the name: a nul-terminated UTF-8 literal starting at word 2
+    let nameLen := ((e.ws.toList.drop 2).takeWhile (fun w => w % 256 != 0 && (w / 256) % 256 != 0 && (w / 65536) % 256 != 0 && w / 16777216 != 0)).length + 1
+    let iface := e.ws.toList.drop (2 + nameLen)
+    if iface.eraseDups.length != iface.length then errs := s!"OpEntryPoint %{e.ws.getD 1 0}: interface lists an id twice" :: errs
+    for v in iface do
+      match gvars.find? (·.1 == v) with
+      | none => errs := s!"OpEntryPoint %{e.ws.getD 1 0}: interface id %{v} is not a module-scope variable" :: errs
+      | some (_, sc) =>
+        if b.version < 0x00010400 && sc != 1 && sc != 3 then
+          errs := s!"OpEntryPoint %{e.ws.getD 1 0}: interface id %{v} is not an Input/Output variable (before SPIR-V 1.4)" :: errs
+    -- call tree (bounded walk)
+    let mut seen : List Nat := []
+    let mut work : List Nat := [e.ws.getD 1 0]
+    let mut used : List Nat := []
+    for _ in [0:fnUses.foldl (fun n f => n + f.2.2.length) 0 + fnUses.length + 2] do
+      match work with
+      | [] => pure ()
+      | f :: rest =>
+        work := rest
+        if !seen.contains f then
+          seen := f :: seen
+          match fnUses.find? (·.1 == f) with
+          | some (_, gs, cs) => used := gs ++ used; work := cs ++ work
+          | none => pure ()
+    for v in used.eraseDups do
+      let sc := ((gvars.find? (·.1 == v)).map (·.2)).getD 0
+      if (b.version ≥ 0x00010400 || sc == 1 || sc == 3) && !iface.contains v then
+        errs := s!"OpEntryPoint %{e.ws.getD 1 0}: variable %{v} (storage class {sc}) is used by the entry point's call tree but missing from its interface" :: errs
   -- resources: Block decoration, layout decorations, DescriptorSet/Binding
   for i in b.insts do
     if i.op == 59 then
